@@ -208,7 +208,8 @@ def _around(draw, og):
 
 
 def _pair(draw, og, kind=None, max_ndim=3):
-    target = draw(gen.shape_st(max_ndim))
+    # (0-d against 0-d takes its own code path in many functions: keep it frequent)
+    target = () if draw(st.integers(0, 5)) == 0 else draw(gen.shape_st(max_ndim))
     a = og.array(draw, shape=target if draw(st.booleans()) else gen.broadcast_member(draw, target), kind=kind)
     b = og.related(draw, a, gen.broadcast_member(draw, target) if draw(st.booleans()) else target)
     return a, b
